@@ -152,7 +152,8 @@ MaskValue(kind, vlen) ==
       [] kind = "Icmp" -> <<255, 255, 0, 0, 0, 0, 0, 0>>
       [] OTHER -> Zeros(vlen)
 MaskAttr(a, txid, opaque) ==
-    LET n == Len(EncValue(a.kind, a.fields, txid))
+    LET n == IF a.kind \in {"MessageIntegrity", "MessageIntegritySha256", "Fingerprint"}
+             THEN Len(opaque[a.kind]) ELSE Len(EncValue(a.kind, a.fields, txid))
     IN <<0, 0, 0, 0>> \o MaskValue(a.kind, n) \o Ones(Pad4(n))
 RECURSIVE MaskAttrs(_, _, _)
 MaskAttrs(as, txid, opaque) == IF as = <<>> THEN <<>>
